@@ -978,10 +978,54 @@ impl<B: Cfg> Fx<B> {
         }
     }
 
+    /// State limbs of permutation op `oi` whose witness slot ALSO feeds another state limb of the
+    /// same row (the same target absorbed at two positions of one block: a re-observed target,
+    /// the shared zero constant of the padding / initial capacity): `(limb, slot, first)`, limb
+    /// in units of the permutation packing, `first` = no lower limb reads that slot.
+    fn shared_input_limbs(&self, oi: usize) -> Vec<(usize, WitnessId, bool)> {
+        let (Some(cfg), Some(Op::NonPrimitiveOpWithExecutor { inputs, .. })) =
+            (B::poseidon_config(), self.fx.circuit.ops.get(oi))
+        else {
+            return vec![];
+        };
+        let limbs = if cfg.d() == 1 { cfg.width() } else { cfg.width_ext() };
+        let slot_of = |g: usize| match inputs.get(g).map(|x| x.as_slice()) {
+            Some([s]) => Some(*s),
+            _ => None,
+        };
+        let mut v = vec![];
+        for g in 0..limbs.min(inputs.len()) {
+            let Some(s) = slot_of(g) else { continue };
+            if (0..limbs).any(|h| h != g && slot_of(h) == Some(s)) {
+                v.push((g, s, !(0..g).any(|h| slot_of(h) == Some(s))));
+            }
+        }
+        v
+    }
+
     /// (class, table, role, carried value) of a deviation.
     fn site(&self, d: &Dev) -> (String, String, String, String) {
         match d {
             Dev::Honest => ("H".into(), "-".into(), "-".into(), "-".into()),
+            Dev::PermIn { call, limb } => {
+                let t = vpe3::backend::poseidon_op_type::<B>()
+                    .map(|t| vpe3::backend::key_table(t.as_str()))
+                    .unwrap_or_default();
+                let pd = B::poseidon_config().map(|c| c.d()).unwrap_or(1).max(1);
+                let hit = self
+                    .perm_ops
+                    .get(*call)
+                    .and_then(|oi| self.shared_input_limbs(*oi).into_iter().find(|(g, _, _)| *g == *limb / pd));
+                match hit {
+                    Some((_, slot, first)) => (
+                        "PI".into(),
+                        t,
+                        format!("input-limb[shared-slot,{}]", if first { "first" } else { "repeat" }),
+                        self.prov(slot.0, 0),
+                    ),
+                    None => ("PI".into(), t, "input-limb".into(), "?".into()),
+                }
+            }
             Dev::Perm { call, limb } => {
                 let t = vpe3::backend::poseidon_op_type::<B>()
                     .map(|t| vpe3::backend::key_table(t.as_str()))
@@ -1101,6 +1145,28 @@ impl<B: Cfg> DynFx for Fx<B> {
                 v.push(Dev::Fault(f));
             }
         }
+        // PI: every state limb of every permutation row whose slot feeds several limbs of that
+        // row (F4 on such a port deviates the shared scratch slot, i.e. all those limbs at once;
+        // here ONE limb deviates) x delta unit (quick: the first and the last limb of every
+        // same-slot group; thorough: every limb)
+        let pd = B::poseidon_config().map(|c| c.d()).unwrap_or(1).max(1);
+        for (call, oi) in self.perm_ops.iter().enumerate() {
+            let sh = self.shared_input_limbs(*oi);
+            for (g, slot, _) in &sh {
+                let same: Vec<usize> = sh.iter().filter(|(_, s, _)| s == slot).map(|(h, _, _)| *h).collect();
+                if !(full || same.first() == Some(g) || same.last() == Some(g)) {
+                    continue;
+                }
+                let mut seen = vec![];
+                for &u in units {
+                    let u = u.min(pd - 1);
+                    if !seen.contains(&u) {
+                        seen.push(u);
+                        v.push(Dev::PermIn { call, limb: g * pd + u });
+                    }
+                }
+            }
+        }
         if B::PERM_D == 1 {
             for call in 0..self.perm_ops.len() {
                 // rate limbs have witness slots (class F2 covers them); the capacity limbs of a
@@ -1146,6 +1212,21 @@ impl<B: Cfg> DynFx for Fx<B> {
                 let r = self.fx.forge(&Deviation { adapt_publics: true, ..Deviation::none() });
                 PLAN.set(None);
                 r.map(|ex| (ex.traces.clone(), self.fx.inputs.clone(), vec![], ex.traces))
+            }
+            Dev::PermIn { call, limb } => {
+                PLAN.set(Some((*call, *limb, self.perm_ops.len(), true)));
+                CALLS.set(0);
+                let r = self.fx.forge(&Deviation { adapt_publics: true, ..Deviation::none() });
+                PLAN.set(None);
+                r.and_then(|ex| {
+                    // the executor recorded the input limbs it read from the slots; the row the
+                    // prover commits carries the state that was really permuted
+                    let mut t = ex.traces;
+                    if !vpe3::fields::add::<B>(&mut t, &vpe3::fields::Loc::PosIn { row: *call, j: *limb }, B::BF::ONE) {
+                        return Err("permutation row input cell not found".to_string());
+                    }
+                    Ok((t.clone(), self.fx.inputs.clone(), vec![], t))
+                })
             }
         };
         let (traces, inputs, edits, committed) = match forged {
